@@ -112,7 +112,7 @@ def nexts_oracle(mode, k, j, n, b1, b3):
     outside="more than 6 records",
     encodes=["csvpath/csvpath.py:CsvPath.collect/next/_consider_line"],
     tiers={
-        "quick": {"timeout": 900, "K": {"KLO": -1, "KHI": 6, "NHI": 7}, "shards": product(mode=["plain", "no-matches"], j=[-1]) + product(mode=["onmatch-reject"], b1=[False])},
+        "quick": {"timeout": 900, "K": {"KLO": -1, "KHI": 5, "NHI": 6}, "shards": product(mode=["plain", "no-matches"], j=[-1]) + product(mode=["onmatch-reject"], b1=[False], b3=[False, True])},
         "thorough": {"timeout": 3000, "K": {"KLO": -2, "KHI": 7, "NHI": 8}, "shards": product(mode=["plain", "no-matches"], j=[-1]) + product(mode=["onmatch-reject"])},
     },
 )
